@@ -297,6 +297,43 @@ theorem remove_is_the_source_u64 {D : Type} (g : Rng D) (fuel e sz cap : Nat) (a
   ⟨fun hc => remove_dense_64_eq g fuel e sz cap a hc d, fun bits hb => remove_heap_64_eq g fuel e sz cap bits a he hb d,
    fun bits hb => remove_big_64_eq g fuel e sz cap bits a hb d⟩
 
+/-! ### the source's `contains`, whole: dispatch on the representation, then the translated arm -/
+
+/-- `SetU64::contains` as it is in the current source: `internal()` tells the five views apart (modelled by the
+constructors of `Rp` and the `bits` word: 64 dense, 1..63 bitmap table, otherwise plain table), then the arm's code
+as translated on every run -/
+def srcContains64 : Rp → Nat → Bool
+  | .empty, _ => false
+  | .stack t, e => Gen.tiny_contains_64 t.sz t.bits e
+  | .heap _ _ bits a, e =>
+    if bits = 64 then Gen.contains_dense_64 e a
+    else if 0 < bits ∧ bits < 64 then Gen.contains_heap_64 e bits a
+    else Gen.contains_big_64 e bits a
+
+/-- it is the model's `contains` on every well-formed representation … -/
+theorem source_contains_is_model_u64 {r : Rp} (wf : WF cfg64 r) (e : Nat) (he : e < 2 ^ 64) :
+    srcContains64 r e = contains cfg64 r e := by
+  cases r with
+  | empty => rfl
+  | stack t => exact tiny_contains_64_eq t e he
+  | heap sz cap bits a =>
+    simp only [srcContains64]
+    split
+    · rename_i hb
+      subst hb
+      exact contains_dense_64_eq e sz cap a (heap_cap_of_wf cfg64_ok wf).1
+    · split
+      · rename_i hb
+        exact contains_heap_64_eq e sz cap bits a he hb
+      · exact contains_big_64_eq e sz cap bits a (by omega)
+
+/-- … hence **membership**: the `contains` of the current source, run on the words of any well-formed set (every
+layout), answers true exactly for the members -/
+theorem source_contains_is_membership_u64 {r : Rp} (wf : WF cfg64 r) (e : Nat) (he : e < 2 ^ 64) :
+    srcContains64 r e = true ↔ e ∈ elems cfg64 r := by
+  rw [source_contains_is_model_u64 wf e he]
+  exact contains_refines cfg64_ok wf e he
+
 end C01
 
 #print axioms C01.insert_refines_u64
